@@ -107,7 +107,7 @@ class Report:
         """(deferred to finish(): floors and instances are complete by then)"""
         self.__dict__.setdefault("_deferred", []).append(lambda: self._supersede(old_rules, new_rule, what))
 
-    def arbitrate(self, old_rules, new_rule: str, what: str, pred=None, also=()) -> None:
+    def arbitrate(self, old_rules, new_rule: str, what: str, pred=None, also=(), lenient=()) -> None:
         """(deferred to finish(); arbitration runs before supersession). `also`: further rules every instance of which must hold
         (the counterpart has to cover every input class the structural rule covers)."""
         def go():
@@ -115,7 +115,10 @@ class Report:
                 rs = [i for i in self.instances if i.rule == r]
                 if not rs or any(i.verdict != HOLDS for i in rs):
                     return 0
-            return self._arbitrate(old_rules, new_rule, what, pred)
+            n = self._arbitrate(old_rules, new_rule, what, pred)
+            if lenient:
+                n += self._arbitrate_unfinished(set(lenient) & set(old_rules), new_rule, what, pred)
+            return n
 
         self.__dict__.setdefault("_deferred_first", []).append(go)
 
@@ -138,6 +141,23 @@ class Report:
         for r in old_rules:
             if r in self.floors and sum(1 for i in self.instances if i.rule == r) < self.floors[r]:
                 self.floors.pop(r, None)
+                n += 1
+        return n
+
+    def _arbitrate_unfinished(self, old_rules, new_rule: str, what: str, pred=None) -> int:
+        """For rules of the "bound not proven / idiom not recognised" kind only (interval rules, the normaliser idiom): when the
+        explicit-game counterpart *did not finish within its time budget* and reports no violation on what it did evaluate, such a
+        finding is recorded as undecided — the code is shaped in a way neither side handles; an alarm would rest on the interval
+        domain's imprecision alone."""
+        new = [i for i in self.instances if i.rule == new_rule]
+        if not new or any(i.verdict == VIOLATED or "(violated there)" in (i.message or "") for i in new) or not any("time budget" in (i.message or "") for i in new):
+            return 0
+        n = 0
+        for i in self.instances:
+            if i.rule in old_rules and i.verdict == VIOLATED and (pred is None or pred(i)):
+                i.verdict = UNDECIDED
+                i.detail = dict(i.detail or {}, contradicted_structural_finding=True)
+                i.message = f"[bound / idiom rule; its explicit-game counterpart {new_rule} ({what}) did not finish within its time budget and found no violation where it did: undecided] " + i.message
                 n += 1
         return n
 
